@@ -7,6 +7,7 @@ import (
 	"math/rand/v2"
 	"net"
 	"reflect"
+	"regexp"
 	"sort"
 	"strings"
 	"testing"
@@ -19,6 +20,7 @@ import (
 	"verifharness/gen"
 	"verifharness/lib"
 	"verifharness/refcodec"
+	"verifharness/refdict"
 )
 
 // ---- the struct family --------------------------------------------------------
@@ -786,8 +788,8 @@ func TestC18(t *testing.T) {
 		{"S11-embedded-last-after-absent-field", func() shape { return new(S11) }, g, 8388000, ""},
 	}
 	n := rec.N(60000, 30000000)
-	rec.Suite("values", n, func(c *ev.Case) {
-		e := family[c.I%len(family)]
+	var runValue func(c *ev.Case, e entry)
+	runValue = func(c *ev.Case, e entry) {
 		src := e.mk()
 		src.fill(c.R)
 		want := src.expect()
@@ -847,6 +849,40 @@ func TestC18(t *testing.T) {
 		if c.WantSample() && len(want) > 3 && len(wire) < 400 {
 			c.Sample(map[string]any{"shape": e.name, "value": fmt.Sprintf("%+v", src), "avps": refcodec.Describe(want), "wire": ev.Hex(wire)})
 		}
+	}
+	rec.Suite("values", n, func(c *ev.Case) { runValue(c, family[c.I%len(family)]) })
+	// a dictionary load that fails part-way must not take away what worked before: the same
+	// shapes against a private parser, before and after a load that restates the whole
+	// generated dictionary and then hits a data type with a typo
+	// (the commands are left out: restating a command is refused before any AVP is looked at)
+	broken := regexp.MustCompile(`(?s)<command.*?</command>`).ReplaceAllString(lib.GenXML, "")
+	broken = strings.Replace(broken, "</application>", `<avp name="Broken-Type" code="29999" must="M" may="P" must-not="V" may-encrypt="-"><data type="Unsigned23"/></avp></application>`, 1)
+	rec.Suite("after-failed-load", rec.N(40, 4000), func(c *ev.Case) {
+		gf, err := refdict.Parse("gen", lib.GenXML)
+		if err != nil {
+			t.Fatal(err)
+		}
+		priv, err := lib.Load("gen-private", gf)
+		if err != nil {
+			t.Fatal(err)
+		}
+		e := family[c.I%len(family)]
+		if e.ctx != g {
+			return
+		}
+		e.ctx = priv
+		c.Class("after-failed-load/%s", e.name)
+		runValue(c, e)
+		if c.Failed() {
+			return
+		}
+		if err := priv.Parser.Load(strings.NewReader(broken)); err == nil {
+			c.Fail(ev.Sig{"op": "setup", "shape": e.name}, nil, nil, "the dictionary with an unknown data type was loaded without an error")
+			return
+		}
+		e.name += "/after-failed-load"
+		runValue(c, e)
+		c.Event("values_after_failed_load", 1)
 	})
 }
 
